@@ -58,6 +58,11 @@ inductive Ctl (V E : Type) where
   | enter (T r : Nat) (k : Res V E → Prog V E)
   | pushed (T r : Nat) (k : Res V E → Prog V E)
   | waiting (T r : Nat) (k : Res V E → Prog V E)
+  /-- inside `Log::log_get(r)`: user code, before `get::<T>(r)` has touched anything (callbacks on) -/
+  | logging (T r : Nat) (k : Res V E → Prog V E)
+  /-- inside the first `Log::load_object(r)` of a run of the compute closure / of the uncached reload of `r`:
+      user code; the guard is pushed, the frame is open, with the object cache on the slot may be claimed -/
+  | loading (r : Nat) (p : Prog V E)
   | storing (res : Res V E)
   | popping (T r : Nat) (k : Res V E → Prog V E) (res : Res V E)
   | done
@@ -84,6 +89,8 @@ structure Cfg where
   objCache : Bool
   stmCache : Bool
   sharedGuard : Bool := false
+  /-- the callbacks into the user's `Log` are steps of their own (the user's code may take arbitrarily long there) -/
+  cb : Bool := false
 deriving DecidableEq, Repr
 
 variable {V E : Type}
@@ -119,13 +126,18 @@ def finish (t : Thread V E) (res : Res V E) : Thread V E :=
   | f :: rest => if f.store then { t with ctl := .storing res } else { t with ctl := .popping f.T f.r f.k res, stack := rest }
   | [] => { t with ctl := .start, out := t.out ++ [res] }
 
-def applyAdv (t : Thread V E) : Adv V E → Thread V E
-  | .enter T r k => { t with ctl := .enter T r k }
+def applyAdv (cfg : Cfg) (t : Thread V E) : Adv V E → Thread V E
+  | .enter T r k => { t with ctl := if cfg.cb then .logging T r k else .enter T r k }
   | .fin res => finish t res
 
 /-- run program `p` as thread `t` up to the next synchronisation point -/
 def runTo (d : Doc V E) (cfg : Cfg) (sh : Shared V E) (t : Thread V E) (p : Prog V E) : Shared V E × Thread V E :=
-  ((advP d cfg sh p).2, applyAdv t (advP d cfg sh p).1)
+  ((advP d cfg sh p).2, applyAdv cfg t (advP d cfg sh p).1)
+
+/-- a run of the compute closure, or of the uncached reload, of `r` starts: `resolve(r)` calls `Log::load_object(r)`
+    first thing -/
+def startLoad (d : Doc V E) (cfg : Cfg) (sh : Shared V E) (t : Thread V E) (r : Nat) (p : Prog V E) : Shared V E × Thread V E :=
+  if cfg.cb then (sh, { t with ctl := .loading r p }) else runTo d cfg sh t p
 
 /-- the cache handed out a value computed earlier (by anybody): type-checked downcast, otherwise the
     object is loaded again without touching the cache (also for a cached `Err`, since D28) -/
@@ -134,8 +146,8 @@ def afterLookup (d : Doc V E) (cfg : Cfg) (sh : Shared V E) (t : Thread V E) (T 
   match res with
   | .ok v =>
     if T' = T then (sh, { t with ctl := .popping T r k (.ok v) })
-    else runTo d cfg sh { t with stack := ⟨T, r, false, k⟩ :: t.stack } (d.body T r)
-  | _ => runTo d cfg sh { t with stack := ⟨T, r, false, k⟩ :: t.stack } (d.body T r)
+    else startLoad d cfg sh { t with stack := ⟨T, r, false, k⟩ :: t.stack } r (d.body T r)
+  | _ => startLoad d cfg sh { t with stack := ⟨T, r, false, k⟩ :: t.stack } r (d.body T r)
 
 /-- one step of thread number `i` whose state is `t`; `none` = not enabled (blocked or finished) -/
 def stepT (d : Doc V E) (cfg : Cfg) (i : Nat) (sh : Shared V E) (t : Thread V E) : Option (Shared V E × Thread V E) :=
@@ -160,15 +172,17 @@ def stepT (d : Doc V E) (cfg : Cfg) (i : Nat) (sh : Shared V E) (t : Thread V E)
     if cfg.objCache then
       match sh.slots.lookup r with
       | none =>
-        some (runTo d cfg { sh with slots := (r, .inProcess i) :: sh.slots }
-                { t with stack := ⟨T, r, true, k⟩ :: t.stack } (d.compute T r))
+        some (startLoad d cfg { sh with slots := (r, .inProcess i) :: sh.slots }
+                { t with stack := ⟨T, r, true, k⟩ :: t.stack } r (d.compute T r))
       | some (.inProcess _) => some (sh, { t with ctl := .waiting T r k })
       | some (.computed T' res) => some (afterLookup d cfg sh t T r k T' res)
-    else some (runTo d cfg sh { t with stack := ⟨T, r, false, k⟩ :: t.stack } (d.compute T r))
+    else some (startLoad d cfg sh { t with stack := ⟨T, r, false, k⟩ :: t.stack } r (d.compute T r))
   | .waiting T r k =>
     match sh.slots.lookup r with
     | some (.computed T' res) => some (afterLookup d cfg sh t T r k T' res)
     | _ => none
+  | .logging T r k => some (sh, { t with ctl := .enter T r k })
+  | .loading _ p => some (runTo d cfg sh t p)
   | .storing res =>
     match t.stack with
     | f :: rest =>
